@@ -435,17 +435,31 @@ def s_pick(draw, seq):
 
 
 @st.composite
-def s_broadcast_pair(draw, max_rank=3, max_side=3):
+def s_broadcast_pair(draw, max_rank=3, max_side=3, min_rank=0):
     """(shape_a, shape_b) that broadcast against each other by construction: a full shape
-    is drawn, each side keeps a suffix of it and replaces some axes by 1"""
-    full = draw(gen.shapes(max_rank=max_rank, max_side=max_side))
+    is drawn, each side keeps a suffix of it and replaces some axes by 1; half of the time
+    one axis is forced to be a genuine broadcast (size >= 2 on one side, 1 or missing on
+    the other)"""
+    full = list(draw(gen.shapes(max_rank=max_rank, max_side=max_side, min_rank=min_rank)))
 
     def sub(keep_all):
         r = len(full) if keep_all else draw(st.integers(0, len(full)))
         s = list(full[len(full) - r:])
         return [1 if draw(st.integers(0, 2)) == 0 else x for x in s]
     who = draw(st.integers(0, 2))
-    return sub(who in (0, 2)), sub(who in (1, 2))
+    a, b = sub(who in (0, 2)), sub(who in (1, 2))
+    if full and draw(st.booleans()):
+        j = draw(st.integers(1, len(full)))          # axis counted from the end
+        big = max(full[-j], 2)
+        a, b = list(a), list(b)
+        long_, short = (a, b) if draw(st.booleans()) else (b, a)
+        while len(long_) < j:
+            long_.insert(0, 1)
+        long_[-j] = big
+        if len(short) >= j:
+            short[-j] = 1
+        # re-establish compatibility of the other axes of `long_` that were padded
+    return a, b
 
 
 def fill(seed, shape, lo=-2.0, hi=2.0):
